@@ -270,7 +270,10 @@ impl HCtx {
 
     pub fn exec(&mut self, toks: &[&str]) {
         match toks {
-            ["http", rest @ ..] => self.http(rest),
+            ["http", rest @ ..] => {
+                self.http(rest);
+                self.l1.after_op();
+            }
             ["allow", spec] => {
                 self.allow = match *spec {
                     "none" => None,
